@@ -3,6 +3,7 @@ package mpcl
 import (
 	"fmt"
 	"math/big"
+	"strings"
 
 	"pgregory.net/rapid"
 
@@ -11,22 +12,23 @@ import (
 
 // Opts bounds the program generator.
 type Opts struct {
-	NumParams   int  // parameters of main (parties); 0 = draw 1..3
-	MaxStmts    int  // statement budget of main
-	MaxDepth    int  // expression depth
-	Helpers     int  // maximal number of helper functions
-	MaxWidth    int  // cap on integer widths (0 = 130)
-	Arrays      bool // array locals / params / results
-	Structs     bool
-	Loops       bool
-	DynIndex    bool
-	MulHeavy    bool // C09 profile: many multiplications/divisions of widths 8..45
-	AliasHeavy  bool // C05 profile: moves, constant shifts, array updates
-	NoDiv       bool
-	ArrayParams bool
-	ScalarParams bool // main parameters are integer scalars only (no bool)
+	NumParams    int  // parameters of main (parties); 0 = draw 1..3
+	MaxStmts     int  // statement budget of main
+	MaxDepth     int  // expression depth
+	Helpers      int  // maximal number of helper functions
+	MaxWidth     int  // cap on integer widths (0 = 130)
+	Arrays       bool // array locals / params / results
+	Structs      bool
+	Loops        bool
+	DynIndex     bool
+	MulHeavy     bool // C09 profile: many multiplications/divisions of widths 8..45
+	AliasHeavy   bool // C05 profile: moves, constant shifts, array updates
+	NoDiv        bool
+	ArrayParams  bool
+	ScalarParams bool   // main parameters are integer scalars only (no bool)
 	Param0       *Type  // fixed type of main's first parameter
 	StructParams bool   // main parameters may be of the program's struct type
+	PkgConsts    bool   // untyped package-level constants, some named like main's parameters (which shadow them in main)
 	PlainDiv     bool   // divisors without the `| 1` guard (callers skip zero-divisor inputs)
 	PoolTypes    []Type // types added to the program's type pool
 }
@@ -56,15 +58,15 @@ type loopVar struct {
 }
 
 type gctx struct {
-	t      *rapid.T
-	o      Opts
-	prog   *Prog
-	pool   []Type // integer types of this program
-	scopes []scope
-	loops  []loopVar
-	fn     *Func
-	nvar   int
-	budget int
+	t       *rapid.T
+	o       Opts
+	prog    *Prog
+	pool    []Type // integer types of this program
+	scopes  []scope
+	loops   []loopVar
+	fn      *Func
+	nvar    int
+	budget  int
 	ifDepth int
 	pending []*Stmt // statements that must directly follow the last one
 	wantWO  bool    // visible() includes write-only named results
@@ -88,8 +90,8 @@ func (g *gctx) fresh() string {
 	return fmt.Sprintf("v%d", g.nvar)
 }
 
-func (g *gctx) push()  { g.scopes = append(g.scopes, scope{}) }
-func (g *gctx) pop()   { g.scopes = g.scopes[:len(g.scopes)-1] }
+func (g *gctx) push()      { g.scopes = append(g.scopes, scope{}) }
+func (g *gctx) pop()       { g.scopes = g.scopes[:len(g.scopes)-1] }
 func (g *gctx) top() scope { return g.scopes[len(g.scopes)-1] }
 
 func (g *gctx) lookup(name string) *varInfo {
@@ -177,6 +179,25 @@ func (g *gctx) literal(T Type) *Expr {
 	n := T.N - 1
 	if n <= 0 {
 		return &Expr{Op: ELit, T: T, Val: "0"}
+	}
+	if len(g.prog.Consts) > 0 && g.fn != nil && g.chance(35, "pkgconst") {
+		// A package-level constant.  Those named like parameters of
+		// main are only visible outside main.
+		var cands []ConstDef
+		for _, c := range g.prog.Consts {
+			v, _ := new(big.Int).SetString(c.Val, 0)
+			if v.BitLen() > n {
+				continue
+			}
+			if g.fn.Name == "main" && strings.HasPrefix(c.Name, "a") {
+				continue
+			}
+			cands = append(cands, c)
+		}
+		if len(cands) > 0 {
+			c := cands[g.intn(0, len(cands)-1, "pkgconstidx")]
+			return &Expr{Op: ELit, T: T, Name: c.Name, Val: c.Val}
+		}
 	}
 	var v *big.Int
 	switch g.intn(0, 5, "litmode") {
@@ -1405,6 +1426,18 @@ func Draw(t *rapid.T, o Opts) *Prog {
 			sd.Fields = append(sd.Fields, Field{Name: fmt.Sprintf("F%d", i), T: g.pickType("fieldtype")})
 		}
 		g.prog.Structs = append(g.prog.Structs, sd)
+	}
+
+	if o.PkgConsts && g.chance(50, "haspkgconsts") {
+		// Untyped package-level constants.  a0/a1 are also the names of
+		// main's first parameters: inside main the parameter shadows the
+		// constant, the helpers see the constant.
+		names := []string{"K0", "a0", "a1", "K1"}
+		nc := g.intn(1, len(names), "npkgconsts")
+		for _, i := range rapid.Permutation([]int{0, 1, 2, 3}).Draw(g.t, "pkgconstnames")[:nc] {
+			v := g.intn(0, 200, "pkgconstval")
+			g.prog.Consts = append(g.prog.Consts, ConstDef{Name: names[i], Val: fmt.Sprint(v)})
+		}
 	}
 
 	// Helpers first (so that calls only go to already generated functions).
